@@ -122,14 +122,192 @@ theorem PoolInv.init (cfg : PoolCfg) : PoolInv cfg Pool.init := by
   constructor <;> simp [Pool.init, closeOk]
 
 
-theorem PoolInv.step {cfg : PoolCfg} {s s' : Pool} (h : PoolInv cfg s) (st : PoolStep cfg s s') :
-    PoolInv cfg s' := by
+local macro "pool_simp" : tactic => `(tactic|
+  simp only [upd_apply, runs_append, dones_append, cancels_append, accs_append, rejs_append, subs_append,
+    enqs_append, fin_append, runs_cons, dones_cons, cancels_cons, accs_cons, rejs_cons, subs_cons, enqs_cons,
+    fin_cons, runs_nil, dones_nil, cancels_nil, accs_nil, rejs_nil, subs_nil, enqs_nil, fin_nil,
+    List.append_nil, List.mem_append, List.mem_singleton, List.mem_cons, closeOk, selectPc, holdsR] at *)
+
+theorem PoolInv.step_locNone {cfg : PoolCfg} {s s' : Pool} (h : PoolInv cfg s) (st : PoolStep cfg s s') :
+    ∀ t, (s'.pc t = .idle ∨ s'.pc t = .checked ∨ s'.pc t = .rlocked ∨ s'.pc t = .admitted ∨ s'.pc t = .ret false) → s'.loc t = .none := by
   obtain ⟨h1, h2, h3, h4, h5, h6, h7, h8, h9, h10, h11, h12, h13, h14, h15, h16, h17, h18, h19, h20, h21⟩ := h
-  cases st <;> constructor <;>
-    simp only [upd_apply, runs_append, dones_append, cancels_append, accs_append, rejs_append, subs_append,
-      enqs_append, fin_append, runs_cons, dones_cons, cancels_cons, accs_cons, rejs_cons, subs_cons, enqs_cons,
-      fin_cons, runs_nil, dones_nil, cancels_nil, accs_nil, rejs_nil, subs_nil, enqs_nil, fin_nil,
-      List.append_nil, List.mem_append, List.mem_singleton, List.mem_cons, closeOk, selectPc, holdsR] at * <;>
-    first | grind | skip
+  cases st <;> pool_simp <;> grind
+
+theorem PoolInv.step_locSome {cfg : PoolCfg} {s s' : Pool} (h : PoolInv cfg s) (st : PoolStep cfg s s') :
+    ∀ t, (s'.pc t = .enqd ∨ s'.pc t = .ret true) → s'.loc t ≠ .none := by
+  obtain ⟨h1, h2, h3, h4, h5, h6, h7, h8, h9, h10, h11, h12, h13, h14, h15, h16, h17, h18, h19, h20, h21⟩ := h
+  cases st <;> pool_simp <;> grind
+
+theorem PoolInv.step_finIff {cfg : PoolCfg} {s s' : Pool} (h : PoolInv cfg s) (st : PoolStep cfg s s') :
+    ∀ t, t ∈ fin s'.log ↔ (s'.loc t = .running ∨ s'.loc t = .done ∨ s'.loc t = .cancelled) := by
+  obtain ⟨h1, h2, h3, h4, h5, h6, h7, h8, h9, h10, h11, h12, h13, h14, h15, h16, h17, h18, h19, h20, h21⟩ := h
+  cases st <;> pool_simp <;> grind
+
+theorem PoolInv.step_finNodup {cfg : PoolCfg} {s s' : Pool} (h : PoolInv cfg s) (st : PoolStep cfg s s') :
+    (fin s'.log).Nodup := by
+  obtain ⟨h1, h2, h3, h4, h5, h6, h7, h8, h9, h10, h11, h12, h13, h14, h15, h16, h17, h18, h19, h20, h21⟩ := h
+  cases st <;> pool_simp <;> grind
+
+theorem PoolInv.step_runIff {cfg : PoolCfg} {s s' : Pool} (h : PoolInv cfg s) (st : PoolStep cfg s s') :
+    ∀ t, t ∈ runs s'.log ↔ (s'.loc t = .running ∨ s'.loc t = .done) := by
+  obtain ⟨h1, h2, h3, h4, h5, h6, h7, h8, h9, h10, h11, h12, h13, h14, h15, h16, h17, h18, h19, h20, h21⟩ := h
+  cases st <;> pool_simp <;> grind
+
+theorem PoolInv.step_doneIff {cfg : PoolCfg} {s s' : Pool} (h : PoolInv cfg s) (st : PoolStep cfg s s') :
+    ∀ t, t ∈ dones s'.log ↔ s'.loc t = .done := by
+  obtain ⟨h1, h2, h3, h4, h5, h6, h7, h8, h9, h10, h11, h12, h13, h14, h15, h16, h17, h18, h19, h20, h21⟩ := h
+  cases st <;> pool_simp <;> grind
+
+theorem PoolInv.step_cancelIff {cfg : PoolCfg} {s s' : Pool} (h : PoolInv cfg s) (st : PoolStep cfg s s') :
+    ∀ t, t ∈ cancels s'.log ↔ s'.loc t = .cancelled := by
+  obtain ⟨h1, h2, h3, h4, h5, h6, h7, h8, h9, h10, h11, h12, h13, h14, h15, h16, h17, h18, h19, h20, h21⟩ := h
+  cases st <;> pool_simp <;> grind
+
+theorem PoolInv.step_enqIff {cfg : PoolCfg} {s s' : Pool} (h : PoolInv cfg s) (st : PoolStep cfg s s') :
+    ∀ t, t ∈ enqs s'.log ↔ s'.loc t ≠ .none := by
+  obtain ⟨h1, h2, h3, h4, h5, h6, h7, h8, h9, h10, h11, h12, h13, h14, h15, h16, h17, h18, h19, h20, h21⟩ := h
+  cases st <;> pool_simp <;> grind
+
+theorem PoolInv.step_rejIff {cfg : PoolCfg} {s s' : Pool} (h : PoolInv cfg s) (st : PoolStep cfg s s') :
+    ∀ t, t ∈ rejs s'.log ↔ s'.pc t = .ret false := by
+  obtain ⟨h1, h2, h3, h4, h5, h6, h7, h8, h9, h10, h11, h12, h13, h14, h15, h16, h17, h18, h19, h20, h21⟩ := h
+  cases st <;> pool_simp <;> grind
+
+theorem PoolInv.step_accIff {cfg : PoolCfg} {s s' : Pool} (h : PoolInv cfg s) (st : PoolStep cfg s s') :
+    ∀ t, t ∈ accs s'.log ↔ s'.pc t = .ret true := by
+  obtain ⟨h1, h2, h3, h4, h5, h6, h7, h8, h9, h10, h11, h12, h13, h14, h15, h16, h17, h18, h19, h20, h21⟩ := h
+  cases st <;> pool_simp <;> grind
+
+theorem PoolInv.step_subIff {cfg : PoolCfg} {s s' : Pool} (h : PoolInv cfg s) (st : PoolStep cfg s s') :
+    ∀ t, t ∈ subs s'.log ↔ s'.pc t ≠ .idle := by
+  obtain ⟨h1, h2, h3, h4, h5, h6, h7, h8, h9, h10, h11, h12, h13, h14, h15, h16, h17, h18, h19, h20, h21⟩ := h
+  cases st <;> pool_simp <;> grind
+
+theorem PoolInv.step_stopClosed {cfg : PoolCfg} {s s' : Pool} (h : PoolInv cfg s) (st : PoolStep cfg s s') :
+    s'.stop = true → s'.closed = true := by
+  obtain ⟨h1, h2, h3, h4, h5, h6, h7, h8, h9, h10, h11, h12, h13, h14, h15, h16, h17, h18, h19, h20, h21⟩ := h
+  cases st <;> pool_simp <;> grind
+
+theorem PoolInv.step_dClosed {cfg : PoolCfg} {s s' : Pool} (h : PoolInv cfg s) (st : PoolStep cfg s s') :
+    (s'.d = .drain ∨ s'.d = .holdD ∨ s'.d = .cancelD ∨ s'.d = .cancelX ∨ s'.d = .exit) → s'.closed = true := by
+  obtain ⟨h1, h2, h3, h4, h5, h6, h7, h8, h9, h10, h11, h12, h13, h14, h15, h16, h17, h18, h19, h20, h21⟩ := h
+  cases st <;> pool_simp <;> grind
+
+theorem PoolInv.step_heldD {cfg : PoolCfg} {s s' : Pool} (h : PoolInv cfg s) (st : PoolStep cfg s s') :
+    ∀ t, s'.loc t = .held → (s'.d = .holdL ∨ s'.d = .holdD ∨ s'.d = .cancelD ∨ s'.d = .cancelX) := by
+  obtain ⟨h1, h2, h3, h4, h5, h6, h7, h8, h9, h10, h11, h12, h13, h14, h15, h16, h17, h18, h19, h20, h21⟩ := h
+  cases st <;> pool_simp <;> grind
+
+theorem PoolInv.step_cancelModes {cfg : PoolCfg} {s s' : Pool} (h : PoolInv cfg s) (st : PoolStep cfg s s') :
+    (s'.d = .cancelD ∨ s'.d = .cancelX) → cfg.cancel = true := by
+  obtain ⟨h1, h2, h3, h4, h5, h6, h7, h8, h9, h10, h11, h12, h13, h14, h15, h16, h17, h18, h19, h20, h21⟩ := h
+  cases st <;> pool_simp <;> grind
+
+theorem PoolInv.step_cancelXFix {cfg : PoolCfg} {s s' : Pool} (h : PoolInv cfg s) (st : PoolStep cfg s s') :
+    s'.d = .cancelX → cfg.cancelFix = false := by
+  obtain ⟨h1, h2, h3, h4, h5, h6, h7, h8, h9, h10, h11, h12, h13, h14, h15, h16, h17, h18, h19, h20, h21⟩ := h
+  cases st <;> pool_simp <;> grind
+
+theorem PoolInv.step_closedIff {cfg : PoolCfg} {s s' : Pool} (h : PoolInv cfg s) (st : PoolStep cfg s s') :
+    s'.closed = true ↔ (s'.c = .stored ∨ s'.c = .stopped ∨ s'.c = .waiting ∨ s'.c = .ret) := by
+  obtain ⟨h1, h2, h3, h4, h5, h6, h7, h8, h9, h10, h11, h12, h13, h14, h15, h16, h17, h18, h19, h20, h21⟩ := h
+  cases st <;> pool_simp <;> grind
+
+theorem PoolInv.step_writerNoReader {cfg : PoolCfg} {s s' : Pool} (h : PoolInv cfg s) (st : PoolStep cfg s s') :
+    cfg.lock = true → s'.writer = true → ∀ t, holdsR (s'.pc t) = false := by
+  obtain ⟨h1, h2, h3, h4, h5, h6, h7, h8, h9, h10, h11, h12, h13, h14, h15, h16, h17, h18, h19, h20, h21⟩ := h
+  cases st <;> pool_simp <;> grind
+
+theorem PoolInv.step_writerIff {cfg : PoolCfg} {s s' : Pool} (h : PoolInv cfg s) (st : PoolStep cfg s s') :
+    cfg.lock = true → (s'.writer = true ↔ (s'.c = .locked ∨ s'.c = .stored ∨ s'.c = .stopped)) := by
+  obtain ⟨h1, h2, h3, h4, h5, h6, h7, h8, h9, h10, h11, h12, h13, h14, h15, h16, h17, h18, h19, h20, h21⟩ := h
+  cases st <;> pool_simp <;> grind
+
+theorem PoolInv.step_noAdmitted {cfg : PoolCfg} {s s' : Pool} (h : PoolInv cfg s) (st : PoolStep cfg s s') :
+    cfg.lock = true → s'.closed = true → ∀ t, s'.pc t ≠ .admitted := by
+  obtain ⟨h1, h2, h3, h4, h5, h6, h7, h8, h9, h10, h11, h12, h13, h14, h15, h16, h17, h18, h19, h20, h21⟩ := h
+  cases st <;> pool_simp <;> grind
+
+theorem PoolInv.step_closeLog {cfg : PoolCfg} {s s' : Pool} (h : PoolInv cfg s) (st : PoolStep cfg s s') :
+    closeOk ∈ s'.log ↔ s'.c = .ret := by
+  obtain ⟨h1, h2, h3, h4, h5, h6, h7, h8, h9, h10, h11, h12, h13, h14, h15, h16, h17, h18, h19, h20, h21⟩ := h
+  cases st <;> pool_simp <;> grind
+
+theorem PoolInv.step {cfg : PoolCfg} {s s' : Pool} (h : PoolInv cfg s) (st : PoolStep cfg s s') :
+    PoolInv cfg s' :=
+  ⟨h.step_locNone st, h.step_locSome st, h.step_finIff st, h.step_finNodup st, h.step_runIff st, h.step_doneIff st, h.step_cancelIff st, h.step_enqIff st, h.step_rejIff st, h.step_accIff st, h.step_subIff st, h.step_stopClosed st, h.step_dClosed st, h.step_heldD st, h.step_cancelModes st, h.step_cancelXFix st, h.step_closedIff st, h.step_writerNoReader st, h.step_writerIff st, h.step_noAdmitted st, h.step_closeLog st⟩
+
+theorem PoolReach.inv {cfg : PoolCfg} {s : Pool} (r : PoolReach cfg s) : PoolInv cfg s := by
+  induction r with
+  | init => exact PoolInv.init cfg
+  | step _ st ih => exact ih.step st
+
+
+/-! ### close waits (configurations with the admission lock, and cancel-on-close only with its repair) -/
+
+def PoolCfg.Sound (cfg : PoolCfg) : Prop := cfg.lock = true ∧ (cfg.cancel = true → cfg.cancelFix = true)
+
+structure PoolInvS (s : Pool) : Prop where
+  exitEmpty : s.d = .exit → ∀ t, s.loc t ≠ .queued
+  retDone : s.c = .ret → s.d = .exit ∧ ∀ t, s.loc t ≠ .inflight ∧ s.loc t ≠ .running
+  waited : closeOk ∈ s.log → ∀ t, s.loc t ≠ .none → (t ∈ dones (preClose s.log) ∨ t ∈ cancels (preClose s.log))
+
+theorem PoolStep.log_mono {cfg : PoolCfg} {s s' : Pool} (st : PoolStep cfg s s') : ∃ r, s'.log = s.log ++ r := by
+  cases st <;> first | exact ⟨_, rfl⟩ | exact ⟨[], by simp⟩
+
+theorem PoolInvS.init : PoolInvS Pool.init := by
+  constructor <;> simp [Pool.init, closeOk]
+
+theorem PoolInvS.step_exitEmpty {cfg : PoolCfg} {s s' : Pool} (hc : cfg.Sound) (h : PoolInv cfg s) (hs : PoolInvS s)
+    (st : PoolStep cfg s s') : s'.d = .exit → ∀ t, s'.loc t ≠ .queued := by
+  obtain ⟨h1, h2, h3, h4, h5, h6, h7, h8, h9, h10, h11, h12, h13, h14, h15, h16, h17, h18, h19, h20, h21⟩ := h
+  obtain ⟨k1, k2, k3⟩ := hs
+  obtain ⟨c1, c2⟩ := hc
+  cases st <;> pool_simp <;> grind
+
+theorem PoolInvS.step_retDone {cfg : PoolCfg} {s s' : Pool} (hc : cfg.Sound) (h : PoolInv cfg s) (hs : PoolInvS s)
+    (st : PoolStep cfg s s') : s'.c = .ret → s'.d = .exit ∧ ∀ t, s'.loc t ≠ .inflight ∧ s'.loc t ≠ .running := by
+  obtain ⟨h1, h2, h3, h4, h5, h6, h7, h8, h9, h10, h11, h12, h13, h14, h15, h16, h17, h18, h19, h20, h21⟩ := h
+  obtain ⟨k1, k2, k3⟩ := hs
+  obtain ⟨c1, c2⟩ := hc
+  cases st <;> pool_simp <;> grind
+
+/-- after Close returned no task is admitted any more -/
+theorem PoolStep.loc_none_stable {cfg : PoolCfg} {s s' : Pool} (hc : cfg.Sound) (h : PoolInv cfg s)
+    (st : PoolStep cfg s s') (hr : s.c = .ret) (t : Nat) : s'.loc t ≠ .none → s.loc t ≠ .none := by
+  obtain ⟨h1, h2, h3, h4, h5, h6, h7, h8, h9, h10, h11, h12, h13, h14, h15, h16, h17, h18, h19, h20, h21⟩ := h
+  obtain ⟨c1, c2⟩ := hc
+  cases st <;> pool_simp <;> grind
+
+theorem PoolStep.closeOk_new {cfg : PoolCfg} {s s' : Pool} (st : PoolStep cfg s s') (hn : closeOk ∉ s.log)
+    (hin : closeOk ∈ s'.log) : s'.log = s.log ++ [closeOk] ∧ s.c = .waiting ∧ s.d = .exit ∧
+      (∀ t, s.loc t ≠ .inflight ∧ s.loc t ≠ .running) ∧ s'.loc = s.loc := by
+  cases st <;> simp_all [closeOk]
+
+theorem PoolInvS.step_waited {cfg : PoolCfg} {s s' : Pool} (hc : cfg.Sound) (h : PoolInv cfg s) (hs : PoolInvS s)
+    (st : PoolStep cfg s s') :
+    closeOk ∈ s'.log → ∀ t, s'.loc t ≠ .none → (t ∈ dones (preClose s'.log) ∨ t ∈ cancels (preClose s'.log)) := by
+  intro hin t ht
+  by_cases hold : closeOk ∈ s.log
+  · obtain ⟨r, hr⟩ := st.log_mono
+    rw [hr, preClose_append_of_mem r hold]
+    exact hs.waited hold t (st.loc_none_stable hc h (h.closeLog.mp hold) t ht)
+  · obtain ⟨hl, _, hd, hrun, hloc⟩ := st.closeOk_new hold hin
+    rw [hl, preClose_of_not_mem hold]
+    rw [hloc] at ht
+    have hq := hs.exitEmpty hd t
+    have hh := h.heldD t
+    have := hrun t
+    rw [h.doneIff, h.cancelIff]
+    cases hl' : s.loc t <;> simp_all
+
+theorem PoolInvS.step {cfg : PoolCfg} {s s' : Pool} (hc : cfg.Sound) (h : PoolInv cfg s) (hs : PoolInvS s)
+    (st : PoolStep cfg s s') : PoolInvS s' :=
+  ⟨hs.step_exitEmpty hc h st, hs.step_retDone hc h st, hs.step_waited hc h st⟩
+
+theorem PoolReach.invS {cfg : PoolCfg} {s : Pool} (hc : cfg.Sound) (r : PoolReach cfg s) : PoolInvS s := by
+  induction r with
+  | init => exact PoolInvS.init
+  | step r st ih => exact ih.step hc r.inv st
 
 end WK.C37
